@@ -399,8 +399,16 @@ def rule_MIRROR(ctx):
                 if e.id not in params and depth < 2:
                     vals = [y.value for y in own_walk(f.node) if isinstance(y, ast.Assign) and len(y.targets) == 1 and isinstance(y.targets[0], ast.Name)
                             and y.targets[0].id == e.id]
-                    kinds = [('mirrored slice' if isinstance(v, ast.Call) and isinstance(v.func, ast.Name) and v.func.id == 'offset_slice_indices_lsb0'
-                              else ok_index(v, line, depth + 1)) for v in vals]
+                    def kind_of(v):
+                        if isinstance(v, ast.IfExp):
+                            a, b = kind_of(v.body), kind_of(v.orelse)
+                            return f'{a} / {b}' if a and b else None
+                        if isinstance(v, ast.Constant) and v.value is None:
+                            return 'absent'
+                        if isinstance(v, ast.Call) and isinstance(v.func, ast.Name) and v.func.id == 'offset_slice_indices_lsb0':
+                            return 'mirrored slice'
+                        return ok_index(v, line, depth + 1)
+                    kinds = [kind_of(v) for v in vals]
                     if vals and all(kinds):
                         return ' / '.join(sorted(set(kinds)))
                 return None
